@@ -1,5 +1,7 @@
 """C19 -- chain tracing partitions particles into simple, distance-respecting chains (narrow claim)"""
 from .common import *
+from . import C05 as _c05
+from . import C08 as _c08
 
 TITLE = "Chain tracing partitions particles into simple, distance-respecting chains"
 EXPLANATION = (
@@ -462,6 +464,8 @@ def o195(ctx):
 
 def _obligations():
     return [
+        Obligation("O19.6", "per-tomogram subsets: get_motl_subset selects exactly feature == value (shared with C08)", _c08.o81, floor=10),
+        Obligation("O19.7", "entry / exit sites: get_coordinates = (x,y,z) + shifts, nothing else (shared with C05)", _c05.o51, floor=9),
         Obligation("O19.5", "two-sided connection: the order offset for add_chain_prefix is read after add_chain_suffix renumbered the chain", o195, floor=1),
         Obligation("O19.1", "get_nn_dist: radius = max_distance, sorted, active filter, strict > min_distance, same masks, element 0", o191, floor=5),
         Obligation("O19.2", "add_chain_suffix: order offset keyed by the class the appended chain receives (both paths)", o192, floor=6),
